@@ -349,7 +349,10 @@ def seeded_specs():
         patch = os.path.join(root, sid, "patch.diff")
         if os.path.isfile(meta) and os.path.isfile(patch):
             with open(meta) as f:
-                out.append(("seeded:" + sid, json.load(f)["property"], patch, None, None))
+                md = json.load(f)
+            if md.get("open_gap"):
+                continue  # recorded as not detected (DESIGN.md section 7.2): not part of the kill matrix
+            out.append(("seeded:" + sid, md["property"], patch, None, None))
     return out
 
 
